@@ -228,6 +228,40 @@ def _core(case):
             guarded('cli-roundtrip-hdf5', lambda: cli_rt('hdf5', False))
             guarded('cli-roundtrip-json-gzip-input', lambda: cli_rt('json', True))
 
+        # ---- the `biom convert` command function itself (option parsing and forwarding included) ----------
+        if case.get('command'):
+            from biom.cli.table_converter import convert as convert_cmd
+            from biom.util import biom_open
+
+            def run_cmd(args):
+                try:
+                    convert_cmd.main(list(args), standalone_mode=False)
+                except SystemExit as e:
+                    if e.code not in (0, None):
+                        raise RuntimeError('biom convert exited with %r' % (e.code,))
+
+            def command_roundtrip():
+                src = os.path.join(d, 'cmd_in.biom')
+                with biom_open(src, 'w') as fh:
+                    tu.build(st).to_hdf5(fh, 'verif')
+                tsv = os.path.join(d, 'cmd.tsv')
+                args = ['-i', src, '-o', tsv, '--to-tsv']
+                if mc:
+                    args += ['--header-key', key, '--tsv-metadata-formatter', cli_fmt]
+                    if case.get('rename'):
+                        args += ['--output-metadata-id', hv]
+                run_cmd(args)
+                res = _compare(rt.view(biom.load_table(tsv)), pre, key, hv, mc == 'text')
+                back = os.path.join(d, 'cmd_back.biom')
+                args = ['-i', tsv, '-o', back, '--to-hdf5']
+                if mc and cli_proc:
+                    args += ['--process-obs-metadata', cli_proc]
+                run_cmd(args)
+                raw = _raw_hdf5(back, hv)
+                res += [('written-file-' + c, e, o) for (c, e, o) in _compare(_V(*raw), pre, key, hv, bool(mc))]
+                return res
+            guarded('command-roundtrip', command_roundtrip)
+
     clauses = {}
     for form, res in results.items():
         for (c, exp, obs) in res:
@@ -304,8 +338,9 @@ def cases(tier, seed=0):
         for ids in ID_KINDS:
             for lay in rt.LAYOUTS:
                 for mc in (None, 'tax', 'text'):
+                    # one layout per combination also goes through the `biom convert` command function itself
                     yield {'A': A, 'layout': lay, 'zeros': 'z1' if bi < 2 else 'nz', 'ids': ids, 'mdcol': mc,
-                           'rename': bool(bi % 2) and mc is not None}
+                           'rename': bool(bi % 2) and mc is not None, 'command': lay == 'csr'}
     for bi, A in enumerate(BASES[:2] + [[[3.0, 0.0, 1.0], [2.0, 2.0, 0.0]]]):
         for h in HISTORIES:
             for lay in (rt.LAYOUTS if not quick else (rt.LAYOUTS[bi % 3],)):
